@@ -40,7 +40,7 @@ Definition after_prior (c : c15_case) : mstate :=
   fold_left (fun m s => snd (run_session m s)) (k_prior c) m_pristine.
 
 Definition obs_from (m : mstate) (s : session) : V :=
-  let zoff := fst (run false 0 (s_lv s) (z_init (s_lv s)) (s_a s) (s_b s)) in
+  let zoff := fst (run false 0 (s_da s) (s_db s) (s_lv s) (z_init (s_lv s)) (s_a s) (s_b s)) in
   let '(zon, m1, m2) := run_session m s in
   c15_obs zoff zon (counts_of m1) (iters_of s m2).
 
@@ -59,69 +59,95 @@ Fixpoint and_spec (a b : fib) : list (Z * (tree * tree)) :=
     end
   end.
 
-(* the iteration space of one level: the non-empty elements of the operand that carries the
-   variable, or of both (intersection) *)
-Definition spec_elems (l : level) (a b : tree) : list (Z * (tree * tree)) :=
-  if la l && lb l then and_spec (present 0 (elems a)) (present 0 (elems b))
-  else if la l then map (fun ct => (fst ct, (snd ct, b))) (present 0 (elems a))
-  else map (fun ct => (fst ct, (a, snd ct))) (present 0 (elems b)).
+(* the iteration space of one level: what iterating the operand that carries the variable
+   yields (non-empty stored elements, or every coordinate of the shape for a "U" rank), or the
+   intersection of both operands' *)
+Definition spec_elems (l : level) (da db : Z) (ba bb : bool) (a b : tree)
+  : list (Z * (tree * tree)) :=
+  let ea := op_elems (ua l) (lshape l) da ba a in
+  let eb := op_elems (ub l) (lshape l) db bb b in
+  if la l && lb l then and_spec ea eb
+  else if la l then map (fun ct => (fst ct, (snd ct, b))) ea
+  else map (fun ct => (fst ct, (a, snd ct))) eb.
+
+Definition lv_elems (da db : Z) (l : level) (lv' : list level) (a b : tree) :=
+  spec_elems l da db (existsb la lv') (existsb lb lv') a b.
 
 (* number of executions of the innermost statement *)
-Fixpoint spec_leafs (lv : list level) (a b : tree) : Z :=
+Fixpoint spec_leafs (da db : Z) (lv : list level) (a b : tree) : Z :=
   match lv with
   | [] => 1
-  | l :: lv' => sumZ (map (fun el => spec_leafs lv' (fst (snd el)) (snd (snd el)))
-                          (spec_elems l a b))
+  | l :: lv' => sumZ (map (fun el => spec_leafs da db lv' (fst (snd el)) (snd (snd el)))
+                          (lv_elems da db l lv' a b))
   end.
 
 (* number of loop bodies executed at depth i *)
-Fixpoint spec_bodies (i : nat) (lv : list level) (a b : tree) {struct lv} : Z :=
+Fixpoint spec_bodies (i : nat) (da db : Z) (lv : list level) (a b : tree) {struct lv} : Z :=
   match lv with
   | [] => 0
   | l :: lv' =>
     match i with
-    | O => Z.of_nat (length (spec_elems l a b))
-    | S i' => sumZ (map (fun el => spec_bodies i' lv' (fst (snd el)) (snd (snd el)))
-                        (spec_elems l a b))
+    | O => Z.of_nat (length (lv_elems da db l lv' a b))
+    | S i' => sumZ (map (fun el => spec_bodies i' da db lv' (fst (snd el)) (snd (snd el)))
+                        (lv_elems da db l lv' a b))
     end
   end.
 
-(* number of non-zero leaves of an output tensor = output points written *)
-Fixpoint nzl (t : tree) : Z :=
-  match t with
-  | Leaf v => if Z.eqb v 0 then 0 else 1
-  | Node es => sumZ (map (fun ct => nzl (snd ct)) es)
+(* the executions of `z_ref += a_val * b_val` in program order: (output point, addend) *)
+Fixpoint spec_trace (da db : Z) (lv : list level) (a b : tree) : list (list Z * Z) :=
+  match lv with
+  | [] => [([], leaf_val a * leaf_val b)]
+  | l :: lv' =>
+      flat_map (fun el => map (fun pv => (if lz l then fst el :: fst pv else fst pv, snd pv))
+                              (spec_trace da db lv' (fst (snd el)) (snd (snd el))))
+               (lv_elems da db l lv' a b)
   end.
 
-(* the same on an observed (encoded) tensor *)
-Fixpoint V_nzl (v : V) : Z :=
-  match v with
-  | VZ z => if Z.eqb z 0 then 0 else 1
-  | VL l => sumZ (map (fun e => match e with
-                                | VL [_; sub] => V_nzl sub
-                                | _ => 0
-                                end) l)
+(* reference semantics of the accumulations: a map from output points to values (0 = absent);
+   an execution is counted as an add when the point's current value is not 0 *)
+Fixpoint pt_eqb (p q : list Z) : bool :=
+  match p, q with
+  | [], [] => true
+  | x :: p', y :: q' => Z.eqb x y && pt_eqb p' q'
+  | _, _ => false
+  end.
+
+Definition ref_upd (f : list Z -> Z) (p : list Z) (v : Z) : list Z -> Z :=
+  fun q => if pt_eqb q p then v else f q.
+
+Fixpoint ref_adds (f : list Z -> Z) (tr : list (list Z * Z)) : Z :=
+  match tr with
+  | [] => 0
+  | (p, v) :: tr' => (if Z.eqb (f p) 0 then 0 else 1) + ref_adds (ref_upd f p (f p + v)) tr'
+  end.
+
+Fixpoint ref_final (f : list Z -> Z) (tr : list (list Z * Z)) : list Z -> Z :=
+  match tr with
+  | [] => f
+  | (p, v) :: tr' => ref_final (ref_upd f p (f p + v)) tr'
+  end.
+
+(* the value an output tree holds at a point (0 where nothing is stored) *)
+Fixpoint zval (t : tree) (p : list Z) : Z :=
+  match t, p with
+  | Leaf v, [] => v
+  | Node es, c :: p' =>
+      (fix look (es : fib) : Z :=
+         match es with
+         | [] => 0
+         | (c', s) :: es' => if Z.eqb c c' then zval s p' else look es'
+         end) es
+  | _, _ => 0
   end.
 
 (* well-formed kernels: every level iterates over an operand; operand depth = number of levels
-   that carry it; coordinates strictly increasing; stored values >= 0 and a rank-0 operand > 0
-   (then no partial sum cancels to 0 and "old value != 0" means "output point written before"
-   — see C15_counts_add_partial) *)
-Fixpoint nonneg (t : tree) : bool :=
-  match t with
-  | Leaf v => Z.leb 0 v
-  | Node es => forallb (fun ct => nonneg (snd ct)) es
-  end.
-
-Definition vals_ok (t : tree) : bool :=
-  match t with Leaf v => Z.ltb 0 v | Node _ => nonneg t end.
-
+   that carry it; coordinates strictly increasing.  Values are arbitrary integers. *)
 Definition cntb (f : level -> bool) (lv : list level) : nat := length (filter f lv).
 
 Definition kernel_wf (lv : list level) (a b : tree) : bool :=
   forallb (fun l => la l || lb l) lv
   && depth_ok (cntb la lv) a && depth_ok (cntb lb lv) b
-  && sorted_t a && sorted_t b && vals_ok a && vals_ok b.
+  && sorted_t a && sorted_t b.
 
 (* trace type 4 = "populate_write_0": its rows carry positions in a staging area behind the
    output fiber's shape, so the populate iterator asserts that the output has one
@@ -136,22 +162,24 @@ Definition c15_wf (c : c15_case) : bool :=
 
 Definition spec_iters (s : session) : list (option Z) :=
   map (fun i => if traced_iter s (Z.of_nat i)
-                then Some (spec_bodies i (s_lv s) (s_a s) (s_b s)) else None)
+                then Some (spec_bodies i (s_da s) (s_db s) (s_lv s) (s_a s) (s_b s)) else None)
       (seq 0 (length (s_lv s))).
 
 (* The property on an observation.  Nothing here looks at k_prior: the expected numbers are
    those of the observed kernel alone (session isolation). *)
 Definition c15_holds (c : c15_case) (o : V) : bool :=
   let s := k_final c in
+  let n := spec_leafs (s_da s) (s_db s) (s_lv s) (s_a s) (s_b s) in
   c15_wf c &&
   match o with
   | VL [zoff; zon; VL [VZ mul; VZ add; VZ upd]; nops; its] =>
-      V_eqb zoff zon                                           (* transparent *)
-      && Z.eqb mul (spec_leafs (s_lv s) (s_a s) (s_b s))       (* one multiply per body *)
-      && Z.eqb upd (spec_leafs (s_lv s) (s_a s) (s_b s))       (* one update per body *)
-      && Z.eqb add (upd - V_nzl zon)                           (* adds = updates of a written point *)
-      && V_eqb nops (VL [VZ mul; VZ add; VZ upd])              (* numOps reports dump's numbers *)
-      && V_eqb its (Vl (Vo VZ) (spec_iters s))                 (* iterations = bodies executed *)
+      V_eqb zoff zon                                (* transparent *)
+      && Z.eqb mul n                                (* one multiply per execution of the statement *)
+      && Z.eqb upd n                                (* one update per execution, zero addends included *)
+      && Z.eqb add (ref_adds (fun _ => 0)           (* adds = executions on a non-zero output value *)
+                      (spec_trace (s_da s) (s_db s) (s_lv s) (s_a s) (s_b s)))
+      && V_eqb nops (VL [VZ mul; VZ add; VZ upd])   (* numOps reports dump's numbers *)
+      && V_eqb its (Vl (Vo VZ) (spec_iters s))      (* iterations = bodies executed *)
   | _ => false
   end.
 
